@@ -160,6 +160,7 @@ pub fn build_world(c: &mut Cur) -> World {
                             replies.push(Reply::Conform(edits))
                         }
                         2 => replies.push(Reply::Raw(c.bytes())),
+                        4 => replies.push(Reply::Wait(c.int() as u32)),
                         _ => replies.push(Reply::RecvErr(c.int() as u8)),
                     }
                 }
@@ -259,15 +260,18 @@ pub fn make_camera(w: World) -> (Arc<Mutex<World>>, Camera<ControlHandle, Stream
                 HCall::Bulk { ep: CTRL_IN, buf, timeout } => {
                     // libusb: a time-out of 0 waits without limit; when nothing will ever arrive the call never
                     // returns (the harness' watchdog reports the hang), exactly as the fake channel of rust/shim
-                    if timeout == 0 && w.replies.is_empty() {
-                        drop(w);
-                        loop {
-                            std::thread::sleep(std::time::Duration::from_secs(3600));
+                    match w.gate(std::time::Duration::from_millis(timeout as u64)) {
+                        shimdev::u3v::sim::Gate::Forever => {
+                            drop(w);
+                            loop {
+                                std::thread::sleep(std::time::Duration::from_secs(3600));
+                            }
                         }
-                    }
-                    match w.on_recv(buf) {
-                        Ok(n) => (0, n as i32),
-                        Err(e) => (code_of(&e), 0),
+                        shimdev::u3v::sim::Gate::TimedOut => (-7, 0),
+                        shimdev::u3v::sim::Gate::Go => match w.on_recv(buf) {
+                            Ok(n) => (0, n as i32),
+                            Err(e) => (code_of(&e), 0),
+                        },
                     }
                 }
                 HCall::Bulk { .. } => (-7, 0),
